@@ -5,8 +5,10 @@ idx = inverse of O.  LInv = ListInv (links, sentinels, inverse) + DictInv (dict 
 """
 import z3
 
-from pyvc.contracts import REG, Dict, Int, Loop, Obj, Opt, Ref, Str
-from pyvc.types import TInt, TOpt, Val
+from pyvc import ops
+from pyvc.contracts import REG, Dict, Int, Loop, Obj, Opt, Ref, Str, Tup
+from pyvc.interp import EngineError
+from pyvc.types import Conc, TBool, TInt, TOpt, TRef, TStr, Val
 
 P = "C18"
 MOD = "django_components.util.cache"
@@ -30,10 +32,8 @@ def fresh_ghost(tag="g"):
     return (z3.FreshConst(z3.ArraySort(I, I), f"O_{tag}"), z3.FreshConst(I, f"n_{tag}"), z3.FreshConst(z3.ArraySort(I, I), f"idx_{tag}"))
 
 
-def list_inv(ctx, s, g, nr, old=False):
-    O, n, idx = g
-    nxt, prv = F(ctx, NODE, "next", old), F(ctx, NODE, "prev", old)
-    head, tail = z3.Select(F(ctx, LRU, "head", old), s), z3.Select(F(ctx, LRU, "tail", old), s)
+def list_inv_f(O, n, idx, nxt, prv, head_a, tail_a, s, nr):
+    head, tail = z3.Select(head_a, s), z3.Select(tail_a, s)
     i = z3.FreshConst(I, "i")
     return z3.And(
         n >= 2, z3.Select(O, 0) == head, z3.Select(O, n - 1) == tail,
@@ -43,11 +43,13 @@ def list_inv(ctx, s, g, nr, old=False):
     )
 
 
-def dict_inv(ctx, s, g, old=False):
-    O, n, idx = g
-    d = z3.Select(F(ctx, LRU, "cache", old), s)
+def list_inv(ctx, s, g, nr, old=False):
+    return list_inv_f(g[0], g[1], g[2], F(ctx, NODE, "next", old), F(ctx, NODE, "prev", old), F(ctx, LRU, "head", old), F(ctx, LRU, "tail", old), s, nr)
+
+
+def dict_inv_f(O, n, idx, keyf, cache_a, s):
+    d = z3.Select(cache_a, s)
     has, val, size = DICT.has(d), DICT.val(d), DICT.size(d)
-    keyf = F(ctx, NODE, "key", old)
     k = z3.FreshConst(KEY.sort(), "k")
     i = z3.FreshConst(I, "i")
     r = z3.Select(val, k)
@@ -58,14 +60,31 @@ def dict_inv(ctx, s, g, old=False):
     )
 
 
-def bound_inv(ctx, s, g, old=False):
-    O, n, idx = g
-    ms = z3.Select(F(ctx, LRU, "maxsize", old), s)
+def dict_inv(ctx, s, g, old=False):
+    return dict_inv_f(g[0], g[1], g[2], F(ctx, NODE, "key", old), F(ctx, LRU, "cache", old), s)
+
+
+def bound_inv_f(n, ms_a, s):
+    ms = z3.Select(ms_a, s)
     return z3.Implies(z3.Not(OI.is_none(ms)), n - 2 <= z3.If(OI.get(ms) > 0, OI.get(ms), 0))
 
 
+def bound_inv(ctx, s, g, old=False):
+    return bound_inv_f(g[1], F(ctx, LRU, "maxsize", old), s)
+
+
+def _linv_f(O, n, idx, nxt, prv, keyf, head_a, tail_a, cache_a, ms_a, s, nr):
+    return z3.And(list_inv_f(O, n, idx, nxt, prv, head_a, tail_a, s, nr), dict_inv_f(O, n, idx, keyf, cache_a, s), bound_inv_f(n, ms_a, s))
+
+
 def linv(ctx, s, g, nr, old=False):
-    return z3.And(list_inv(ctx, s, g, nr, old), dict_inv(ctx, s, g, old), bound_inv(ctx, s, g, old))
+    """LInv as an OPAQUE predicate of (ghost, the seven field arrays, the cache object, the allocation bound): the LRUCache
+    methods reveal its definition for their own proofs; code that only USES a cache carries it as an atom from one
+    method's postcondition to the next method's precondition."""
+    args = [g[0], g[1], g[2], F(ctx, NODE, "next", old), F(ctx, NODE, "prev", old), F(ctx, NODE, "key", old), F(ctx, LRU, "head", old),
+            F(ctx, LRU, "tail", old), F(ctx, LRU, "cache", old), F(ctx, LRU, "maxsize", old), s, nr]
+    p = ctx.opaque("LInv", args, _linv_f)
+    return _linv_f(*args) if (not ctx.run.modular and "LInv" in ctx.run.x.c.reveal) else p
 
 
 def _self(ctx):
@@ -159,8 +178,21 @@ REG.contract(
     ensures={
         "establishes_linv_empty": lambda c: z3.And(list_inv(c, _self(c), c.ghost["lru"], c.run.next_ref), dict_inv(c, _self(c), c.ghost["lru"])),
         "maxsize_stored": lambda c: z3.Select(F(c, LRU, "maxsize"), _self(c)) == c.old("maxsize").t,
+        "only_self_and_new_nodes_written": lambda c: _init_frame(c),
+        "cache_empty": lambda c: _is_empty(z3.Select(F(c, LRU, "cache"), _self(c))),
     },
 )
+
+
+def _is_empty(d):
+    return z3.And(DICT.size(d) == 0, DICT.has(d) == z3.K(KEY.sort(), z3.BoolVal(False)))
+
+
+def _init_frame(c):
+    r = z3.FreshConst(I, "r")
+    return z3.ForAll([r], z3.Implies(z3.And(r > 0, r < c.old_next_ref), z3.And(
+        *[z3.Implies(r != _self(c), z3.Select(F(c, LRU, f), r) == z3.Select(F(c, LRU, f, True), r)) for f in ("maxsize", "cache", "head", "tail")],
+        *[z3.Select(F(c, NODE, f), r) == z3.Select(F(c, NODE, f, True), r) for f in ("next", "prev", "key", "value")])))
 
 
 # =============================================================================================== has
@@ -175,7 +207,7 @@ def _cache_val(c, key, old=False):
 
 
 REG.contract(
-    f"{MOD}:LRUCache.has", prop=P, types={"key": KEY}, entry=_entry_ghost,
+    f"{MOD}:LRUCache.has", prop=P, reveal={"LInv"}, types={"key": KEY}, entry=_entry_ghost,
     requires=[lambda c: linv(c, _self(c), c.ghost["lru"], c.run.next_ref)],
     modifies=[], raises={},
     ensures={"result_is_membership": lambda c: c["result"].t == _cache_has(c, c.old("key").t)},
@@ -201,7 +233,7 @@ def _get_havoc(ctx):
 
 
 REG.contract(
-    f"{MOD}:LRUCache.get", prop=P, types={"key": KEY}, result=Opt(VALT), entry=_entry_ghost,
+    f"{MOD}:LRUCache.get", prop=P, reveal={"LInv"}, types={"key": KEY}, result=Opt(VALT), entry=_entry_ghost,
     requires=[lambda c: linv(c, _self(c), c.ghost["lru"], c.run.next_ref)],
     modifies=[f"{NODE}.next", f"{NODE}.prev"], raises={}, ghost_havoc=_get_havoc,
     ensures={
@@ -250,7 +282,7 @@ def _present(c):
 
 
 REG.contract(
-    f"{MOD}:LRUCache.set", prop=P, types={"key": KEY, "value": VALT}, entry=_entry_ghost,
+    f"{MOD}:LRUCache.set", prop=P, reveal={"LInv"}, types={"key": KEY, "value": VALT}, entry=_entry_ghost,
     requires=[lambda c: linv(c, _self(c), c.ghost["lru"], c.run.next_ref)],
     modifies=[f"{NODE}.next", f"{NODE}.prev", f"{NODE}.key", f"{NODE}.value", f"{LRU}.cache"], raises={}, ghost_havoc=_set_havoc,
     ensures={
@@ -295,7 +327,7 @@ def _clear_update(ctx):
 
 
 REG.contract(
-    f"{MOD}:LRUCache.clear", prop=P, entry=_entry_ghost,
+    f"{MOD}:LRUCache.clear", prop=P, reveal={"LInv"}, entry=_entry_ghost,
     requires=[lambda c: linv(c, _self(c), c.ghost["lru"], c.run.next_ref)],
     modifies=[f"{NODE}.next", f"{NODE}.prev", f"{LRU}.cache"], raises={}, ghost_update=_clear_update,
     ensures={
@@ -304,8 +336,305 @@ REG.contract(
     },
 )
 
-ASSUMES = ["A-PY", "A-INST"]
+
+# =============================================================================================== the configured size
+SETTINGS = "django_components.app_settings"
+CONF = z3.Const("setting!template_cache_size", OI.sort())          # COMPONENTS.template_cache_size as configured (None = not set)
+DEFAULT = z3.Int("default!template_cache_size")                      # defaults.template_cache_size
+SIZE = z3.If(OI.is_none(CONF), DEFAULT, OI.get(CONF))                # what "the configured cache size" means (0 stays 0)
+
+REG.stub(("new", "InternalSettings"), lambda run, args, kwargs, node: Conc(("obj_kind", "app_settings")))
+REG.stub(("new", "Dynamic"), lambda run, args, kwargs, node: Conc(("obj_kind", "dynamic_default")))
+REG.stub(("new", "ComponentsSettings"), lambda run, args, kwargs, node: Conc(("obj_kind", "settings_defaults")))
+REG.stub(("getattr", "conc:obj_kind:settings_defaults", "template_cache_size"), lambda run, obj, node: Val(TInt, DEFAULT))
+REG.stub(("getattr", "conc:obj_kind:user_settings", "template_cache_size"), lambda run, obj, node: Val(OI, CONF))
+REG.stub(("getattr", "InternalSettings", "_settings"), lambda run, obj, node: Conc(("obj_kind", "user_settings")))
+REG.inline("django_components.util.misc:default")
+
+REG.contract(
+    f"{SETTINGS}:InternalSettings.TEMPLATE_CACHE_SIZE", prop=P, result=Int, self_type=Obj("InternalSettings"),
+    modifies=[], raises={},
+    ensures={"is_the_configured_size_else_the_default": lambda c: c["result"].t == SIZE},
+)
+# callers read the property through the attribute: same spec function as the contract above
+REG.stub(("getattr", "conc:obj_kind:app_settings", "TEMPLATE_CACHE_SIZE"), lambda run, obj, node: Val(TInt, SIZE))
+
+# =============================================================================================== get_template_cache
+CMOD = "django_components.cache"
+OLRU = TOpt(TRef(LRU))
+TC_GLOBALS = {"template_cache": Opt(Ref(LRU))}
+
+
+def _tc(c, old=False):
+    return (c.old("template_cache") if old else c.run.globals["template_cache"]).t
+
+
+def _ghost_same(c):
+    g0, g1 = c.old_ghost["lru"], c.ghost["lru"]
+    return z3.And(g0[0] == g1[0], g0[1] == g1[1], g0[2] == g1[2])
+
+
+def _existing_cache_wf(c):
+    """the template cache, once created, satisfies the LRU representation invariant (every LRUCache method keeps it)"""
+    return z3.Implies(z3.Not(OLRU.is_none(_tc(c))), linv(c, OLRU.get(_tc(c)), c.ghost["lru"], c.run.next_ref))
+
+
+REG.contract(
+    f"{CMOD}:get_template_cache", prop=P, reveal={"LInv"}, result=Ref(LRU), globals=TC_GLOBALS, entry=_entry_ghost,
+    requires=[_existing_cache_wf],
+    modifies=["template_cache", f"{LRU}.maxsize", f"{LRU}.cache", f"{LRU}.head", f"{LRU}.tail", f"{NODE}.next", f"{NODE}.prev", f"{NODE}.key", f"{NODE}.value"],
+    raises={}, ghost_havoc=lambda ctx: ctx.ghost.__setitem__("lru", fresh_ghost("gtc")),
+    ensures={
+        "is_the_module_cache": lambda c: z3.And(z3.Not(OLRU.is_none(_tc(c))), OLRU.get(_tc(c)) == c["result"].t),
+        "one_cache_per_process": lambda c: z3.Implies(z3.Not(OLRU.is_none(_tc(c, True))), z3.And(_tc(c) == _tc(c, True), _ghost_same(c))),
+        "created_empty_with_the_configured_size": lambda c: z3.Implies(OLRU.is_none(_tc(c, True)), z3.And(
+            z3.Select(F(c, LRU, "maxsize"), c["result"].t) == OI.some(SIZE), c.ghost["lru"][1] == 2, c["result"].t >= c.old_next_ref)),
+        "linv": lambda c: linv(c, c["result"].t, c.ghost["lru"], c.run.next_ref),
+        "existing_objects_untouched": lambda c: _old_objects_untouched(c),
+        "created_cache_has_no_entries": lambda c: z3.Implies(OLRU.is_none(_tc(c, True)), _is_empty(z3.Select(F(c, LRU, "cache"), c["result"].t))),
+        "nothing_written_once_created": lambda c: z3.Implies(z3.Not(OLRU.is_none(_tc(c, True))), z3.And(*[F(c, k, f) == F(c, k, f, True) for k, f in _FLDS])),
+    },
+)
+
+
+_FLDS = [(LRU, f) for f in ("maxsize", "cache", "head", "tail")] + [(NODE, f) for f in ("next", "prev", "key", "value")]
+
+
+def _old_objects_untouched(c):
+    r = z3.FreshConst(I, "r")
+    flds = _FLDS
+    return z3.ForAll([r], z3.Implies(z3.And(r > 0, r < c.old_next_ref), z3.And(*[z3.Select(F(c, k, f), r) == z3.Select(F(c, k, f, True), r) for k, f in flds])))
+
+
+# =============================================================================================== cached_template
+TMOD = "django_components.template"
+TCLS, ENGINE, ECLS, ANYOBJ = Obj("TemplateCls"), Obj("Engine"), Obj("EngineCls"), Obj("Opaque")
+KT = Tup(Str, Str, Opt(Str))
+OSTR = TOpt(TStr)
+OENG = TOpt(ENGINE)
+S_ = z3.StringSort()
+
+
+def import_path_t(cls_t):
+    return ops.uf("import_path_TemplateCls", TCLS.sort(), S_)(cls_t)
+
+
+def import_path_e(cls_t):
+    return ops.uf("import_path_EngineCls", ECLS.sort(), S_)(cls_t)
+
+
+def engine_class(e):
+    return ops.uf("class_of_engine", ENGINE.sort(), ECLS.sort())(e)
+
+
+def _get_import_path(run, args, kwargs, node):
+    v = args[0]
+    if v.ty == TOpt(TCLS):
+        v = run.coerce(v, TCLS)
+    if v.ty == TCLS:
+        return Val(TStr, import_path_t(v.t))
+    if v.ty == ECLS:
+        return Val(TStr, import_path_e(v.t))
+    raise EngineError(f"get_import_path of {v.ty}")
+
+
+REG.stub("django_components.util.misc:get_import_path", _get_import_path)
+# classes and django Engine objects are truthy (no __bool__ / __len__): `template_cls or Template`, `if engine`
+REG.stub(("truth", "TemplateCls"), lambda run, v: z3.BoolVal(True))
+REG.stub(("truth", "Engine"), lambda run, v: z3.BoolVal(True))
+REG.stub(("getattr", "Engine", "__class__"), lambda run, obj, node: Val(ECLS, engine_class(obj.t)))
+
+
+def key_term(cls_t, src, eng):
+    """the cache key of a compilation request, as a value of the LRU's opaque key sort (tuple equality = component-wise)"""
+    ep = z3.If(OENG.is_none(eng), OSTR.none(), OSTR.some(import_path_e(engine_class(OENG.get(eng)))))
+    return ops.uf(f"inj_{KT.name}_{KEY.name}", KT.sort(), KEY.sort())(KT.mk(import_path_t(cls_t), src, ep))
+
+
+# what a Template object was compiled from (ASSUMED contract of django.template.Template.__init__: it records its inputs)
+def tpl_key(t):
+    return ops.uf("template_compiled_from_key", VALT.sort(), KEY.sort())(t)
+
+
+def tpl_engine(t):
+    return ops.uf("template_engine", VALT.sort(), OENG.sort())(t)
+
+
+def _new_template(run, args, kwargs, node):
+    """template_cls(template_string, origin=..., name=..., engine=...): a NEW Template object (distinct from every cached one)"""
+    cls = run.call_frame.lookup("template_cls")
+    src = run.coerce(args[0], TStr).t
+    eng = run.coerce(kwargs["engine"], OENG).t
+    t = z3.FreshConst(VALT.sort(), "new_template")
+    run.assume(z3.And(tpl_key(t) == key_term(run.coerce(cls, TCLS).t, src, eng), tpl_engine(t) == eng))
+    run.ghost["compiled"] = Val(TBool, z3.BoolVal(True))
+    run.ghost["new_template"] = Val(VALT, t)
+    return Val(VALT, t)
+
+
+def _cache_obj(c, old=False):
+    return OLRU.get(_tc(c, old))
+
+
+def _tpl_of(c, k, old=False):
+    """the Template stored under key k"""
+    s = _cache_obj(c, old)
+    d = z3.Select(F(c, LRU, "cache", old), s)
+    return z3.Select(F(c, NODE, "value", old), z3.Select(DICT.val(d), k))
+
+
+def _has_key(c, k, old=False):
+    s = _cache_obj(c, old)
+    return z3.Select(DICT.has(z3.Select(F(c, LRU, "cache", old), s)), k)
+
+
+def _entries_compiled_from_their_key(c, old=False):
+    """cache invariant: every cached Template was compiled from the (class path, source, engine class path) it is filed under"""
+    k = z3.FreshConst(KEY.sort(), "k")
+    return z3.Implies(z3.Not(OLRU.is_none(_tc(c, old))), z3.ForAll([k], z3.Implies(_has_key(c, k, old), tpl_key(_tpl_of(c, k, old)) == k)))
+
+
+def _req_key(c):
+    cls = c.old("template_cls").t
+    cls_t = z3.If(TOpt(TCLS).is_none(cls), c.run.globals["Template"].t, TOpt(TCLS).get(cls))
+    return key_term(cls_t, c.old("template_string").t, c.old("engine").t)
+
+
+def _was_cached(c):
+    return z3.And(z3.Not(OLRU.is_none(_tc(c, True))), _has_key(c, _req_key(c), True))
+
+
+REG.contract(
+    f"{TMOD}:cached_template", prop=P, result=VALT, entry=_entry_ghost,
+    types={"template_string": Str, "template_cls": Opt(TCLS), "origin": Opt(ANYOBJ), "name": Opt(Str), "engine": Opt(ENGINE)},
+    globals=dict(TC_GLOBALS, Template=TCLS), locals={"cache_key": KT}, calls={"template_cls": _new_template},
+    requires=[_existing_cache_wf, _entries_compiled_from_their_key],
+    modifies=["template_cache", f"{LRU}.maxsize", f"{LRU}.cache", f"{LRU}.head", f"{LRU}.tail", f"{NODE}.next", f"{NODE}.prev", f"{NODE}.key", f"{NODE}.value"],
+    raises={},
+    ensures={
+        # transparency: what comes back was compiled from exactly the requested (class, source, engine class) ...
+        "result_compiled_from_the_requested_key": lambda c: tpl_key(c["result"].t) == _req_key(c),
+        # ... and is the IDENTICAL object for a repeated key as long as it is cached
+        "identical_object_while_cached": lambda c: z3.Implies(_was_cached(c), c["result"].t == _tpl_of(c, _req_key(c), True)),
+        "cache_entries_compiled_from_their_key": lambda c: _entries_compiled_from_their_key(c),
+        "cache_stays_well_formed_and_bounded": lambda c: z3.And(z3.Not(OLRU.is_none(_tc(c))), linv(c, _cache_obj(c), c.ghost["lru"], c.run.next_ref)),
+        # the engine INSTANCE is not part of the key (only its class path): see finding F-C18a
+        "result_bound_to_the_requested_engine": lambda c: tpl_engine(c["result"].t) == c.old("engine").t,
+    },
+    findings={"post#result_bound_to_the_requested_engine": lambda c: z3.And(_was_cached(c), tpl_engine(_tpl_of(c, _req_key(c), True)) != c.old("engine").t)},
+)
+
+
+# =============================================================================================== ownership scan
+def own_template_cache():
+    """The cache invariant (entries compiled from their key) needs: the template cache is reached only through
+    get_template_cache(), and only cached_template stores into it; the LRU's own fields are written only in util/cache.py."""
+    import ast
+    from pyvc.repo import all_repo_modules, load_module
+    users, writers, raw = [], [], []
+    for modname in all_repo_modules():
+        m = load_module(modname)
+        for fq, fi in m.funcs.items():
+            names = {n.id for n in ast.walk(fi.node) if isinstance(n, ast.Name)}
+            if "get_template_cache" in names and not (modname == CMOD and fq == "get_template_cache"):
+                users.append(f"{modname}:{fq}")
+            if "template_cache" in names and modname != TMOD and not (modname == CMOD and fq == "get_template_cache"):
+                raw.append(f"{modname}:{fq}")
+            for n in ast.walk(fi.node):
+                if isinstance(n, (ast.Assign, ast.AugAssign, ast.AnnAssign)):
+                    for t in (n.targets if isinstance(n, ast.Assign) else [n.target]):
+                        if isinstance(t, ast.Attribute) and t.attr in ("head", "tail", "maxsize", "cache") and modname != MOD and ast.unparse(t.value) != "self":
+                            writers.append(f"{modname}:{fq}:{n.lineno}")
+    ok = users == [f"{TMOD}:cached_template"] and not raw and not writers
+    return ok, f"users of get_template_cache: {users}; other references to the module global: {raw}; foreign writers of LRU fields: {writers}"
+
+
+REG.syntactic_check("own#template_cache_used_only_by_cached_template", P, own_template_cache)
+
+ASSUMES = ["A-PY", "A-INST", "A-DJ"]
 NOT_COVERED = [
-    "cached_template / get_template_cache (key function, transparency lemma) are not yet under contract",
-    "ownership scan of LRUCache.cache/head/tail writers outside util/cache.py not yet run",
+    "django.template.Template.__init__ is ASSUMED to record what it was compiled from (source, class, engine) and rendering is ASSUMED to depend on nothing else given the same Context - this is what turns `compiled from the requested key` into `output equals compiling afresh`",
+    "Component._get_template (the caller in component.py) is not under contract: that it passes the component's template string unchanged is read, not proved",
+    "a template cache object replaced or mutated by user code through django_components.cache.template_cache is outside the contract (precondition: the cache is well-formed and holds only entries filed by cached_template)",
 ]
+
+
+# ------------------------------------------------------------------------------------------- replay on the real code
+@REG.replay(f"{CMOD}:get_template_cache")
+def _replay_gtc(model, ob):
+    """drive the real wiring with the configured sizes the property names (0, 1, n, not set)"""
+    from django.conf import settings
+    if not settings.configured:
+        from tests.django_test_setup import setup_test_config
+        setup_test_config({"autodiscover": False})
+    import django_components.cache as cache_mod
+    from django_components.app_settings import defaults
+    saved, saved_cache = getattr(settings, "COMPONENTS", {}), cache_mod.template_cache
+    try:
+        for v in (0, 1, 3, None):
+            settings.COMPONENTS = {"autodiscover": False} if v is None else {"autodiscover": False, "template_cache_size": v}
+            cache_mod.template_cache = None
+            got = cache_mod.get_template_cache()
+            want = defaults.template_cache_size if v is None else v
+            if got.maxsize != want:
+                return {"confirmed": True, "function": "get_template_cache", "inputs": {"COMPONENTS.template_cache_size": v},
+                        "expected": f"LRUCache(maxsize={want})", "observed": f"LRUCache(maxsize={got.maxsize})"}
+            for k in range(5):
+                got.set(("k", k), object())
+            if want is not None and len(got.cache) > max(want, 0):
+                return {"confirmed": True, "function": "get_template_cache", "inputs": {"COMPONENTS.template_cache_size": v},
+                        "expected": f"at most {want} entries", "observed": f"{len(got.cache)} entries"}
+    finally:
+        settings.COMPONENTS = saved
+        cache_mod.template_cache = saved_cache
+    return {"confirmed": False}
+
+
+def _f18a(w):
+    from django.conf import settings
+    if not settings.configured:
+        from tests.django_test_setup import setup_test_config
+        setup_test_config({"autodiscover": False})
+    from django.template import Context, Engine, Template
+    from django_components import cached_template
+    e1, e2 = Engine(string_if_invalid="A"), Engine(string_if_invalid="B")
+    src = "{{ missing_f18a }}"
+    cached_template(src, engine=e1)
+    return cached_template(src, engine=e2).render(Context()) != Template(src, engine=e2).render(Context())
+
+
+FINDING_REPLAYS = {"F-C18a": _f18a}
+
+
+@REG.replay(f"{TMOD}:cached_template")
+def _replay_ct(model, ob):
+    """native scenario over the clauses of the contract: repeated key -> identical object, result compiled from the request"""
+    from django.conf import settings
+    if not settings.configured:
+        from tests.django_test_setup import setup_test_config
+        setup_test_config({"autodiscover": False})
+    import django_components.cache as cache_mod
+    from django.template import Context, Template
+    from django_components import cached_template
+    saved = cache_mod.template_cache
+    cache_mod.template_cache = None
+    try:
+        srcs = ["A{{ x }}", "B{{ x }}", "A{{ x }}" + "y" * 200, "A{{ x }}" + "y" * 199 + "z"]
+
+        class T2(Template):
+            pass
+        for src in srcs:
+            for cls in (None, T2):
+                t1 = cached_template(src, template_cls=cls)
+                t2 = cached_template(src, template_cls=cls)
+                if t1 is not t2:
+                    return {"confirmed": True, "function": "cached_template", "inputs": {"template_string": src, "template_cls": str(cls)},
+                            "expected": "identical Template object for the repeated key", "observed": "two different objects"}
+                if t1.source != src or type(t1) is not (cls or Template):
+                    return {"confirmed": True, "function": "cached_template", "inputs": {"template_string": src, "template_cls": str(cls)},
+                            "expected": f"a {(cls or Template).__name__} compiled from the requested source", "observed": f"{type(t1).__name__} compiled from {t1.source[:40]!r}..."}
+                if t1.render(Context({"x": 1})) != Template(src).render(Context({"x": 1})):
+                    return {"confirmed": True, "function": "cached_template", "inputs": {"template_string": src}, "expected": "output of compiling afresh", "observed": t1.render(Context({"x": 1}))[:60]}
+    finally:
+        cache_mod.template_cache = saved
+    return {"confirmed": False}
